@@ -301,3 +301,44 @@ def check_guarded_drops(ctx, facts, rule, bodies):
                         'a timestamp is removed from its map and dropped on a path that never established it to be <= the competing timestamp '
                         '(no re-insert, no max-join, no guard on that path): a newer delete / insert can be discarded in favour of an older operation')
     return n
+
+
+def check_exclusive_maps(ctx, facts, rule, bodies):
+    """X: a key is never live and tombstoned at once — where a body stores a NEW timestamp for key k into one of the two
+    maps (entries / dead), a `remove(&k)` on the sibling map dominates that store.  Restoring the value just taken out of the
+    same map is exempt (it re-establishes the previous state)."""
+    n = 0
+    adt = facts.adts.get('datacake_crdt::orswot::OrSWotSet')
+    fnames = [f['name'] for f in adt['variants'][0]['fields']] if adt else []
+    pair = {fnames.index('entries'): fnames.index('dead'), fnames.index('dead'): fnames.index('entries')} if 'entries' in fnames and 'dead' in fnames else {}
+    for body in bodies:
+        flow = Flow(body, skip_deref_writes=True)
+        calls = list(body.calls())
+        lookups = [(b, t, map_identity(body, op_local(t['args'][0]))) for b, t in calls if cname(t) and LOOKUPS.match(cname(t))]
+        short = body.name.replace('datacake_crdt::orswot::', '')
+        for b, t in calls:
+            nn = cname(t)
+            if not nn or not re.match(r'^(alloc::collections::btree::map::BTreeMap|std::collections::hash::map::HashMap)::(insert|entry)$', nn):
+                continue
+            mid = {m for m in map_identity(body, op_local(t['args'][0])) if m[0] == 'self' and m[1] in pair}
+            if not mid:
+                continue
+            if nn.endswith('::insert'):
+                vl = op_local(t['args'][-1])
+                vb = flow.backward([vl]) if vl is not None else set()
+                if any(lt['dest']['l'] in vb and (lm & mid) for _lb, lt, lm in lookups):
+                    continue        # restoring a value looked up in this very map
+            n += 1
+            sib = {('self', pair[m[1]]) for m in mid}
+            removes = [lb for lb, lt, lm in lookups if cname(lt).endswith('::remove') and (lm & sib) and body.dominates(lb, b)]
+            # the map taken out wholesale (mem::take) and re-filled counts as emptied
+            taken = [bb for bb, tt in calls if cname(tt) in ('core::mem::take', 'core::mem::replace') and map_identity(body, op_local(tt['args'][0])) & sib
+                     and body.dominates(bb, b)]
+            key = '%s|store#%d' % (short, len([o for o in ctx.obs if o.rule == rule and o.key.startswith(short + '|store#')]))
+            ok = bool(removes or taken)
+            which = fnames[list(mid)[0][1]]
+            ctx.ob(rule, key, ok, site(body, t['cs']),
+                   'a new stamp is stored in `%s` only after the key was removed from `%s`' % (which, fnames[pair[list(mid)[0][1]]]) if ok else
+                   'a new stamp is stored in `%s` without removing the key from `%s`: the key ends up live AND tombstoned; a later purge returns '
+                   'the live key and storage drops a live document (or a delete resurfaces)' % (which, fnames[pair[list(mid)[0][1]]]))
+    return n
